@@ -123,10 +123,12 @@ def fix_atomic_specifiers(
     """
     # There can be multiple levels of _Atomic in a decl; fix them until a
     # fixed point is reached.
+    fixed = False
     while True:
         decl, found = _fix_atomic_specifiers_once(decl)
         if not found:
             break
+        fixed = True
 
     # Make sure to add an _Atomic qual on the topmost decl if needed. Also
     # restore the declname on the innermost TypeDecl (it gets placed in the
@@ -138,10 +140,11 @@ def fix_atomic_specifiers(
         except AttributeError:
             return decl
     # decl.quals mirrors the qualifiers of the base type, including those that
-    # came from inside an _Atomic(...) specifier.
-    for qual in typ.quals:
-        if qual not in decl.quals:
-            decl.quals.append(qual)
+    # came from inside an _Atomic(...) specifier. The list object is shared by
+    # all the declarators of a declaration, so replace it rather than modify
+    # it in place.
+    if fixed:
+        decl.quals = typ.quals[:]
     if typ.declname is None:
         typ.declname = decl.name
 
@@ -183,9 +186,6 @@ def _fix_atomic_specifiers_once(
     # Qualifiers written next to the specifier (const _Atomic(int) x) were
     # attached to the TypeDecl being removed; they qualify the same type.
     new_type.quals[:0] = [q for q in parent.quals if q not in new_type.quals]
-    if not isinstance(new_type, c_ast.TypeDecl):
-        # They qualify a pointer, not the base type that decl.quals mirrors.
-        decl.quals = [q for q in decl.quals if q not in parent.quals]
     if "_Atomic" not in new_type.quals:
         new_type.quals.append("_Atomic")
     return decl, True
